@@ -31,6 +31,7 @@ void Sim::reset() {
 	open_handles = 0;
 	write_fail_at = -1;
 	write_errno = ENOSPC;
+	write_fail_once = 0;
 	out_written = 0;
 	out_buf = 0;
 	fdopen_fail = false;
@@ -256,6 +257,7 @@ static ssize_t out_write(void *c, const char *buf, size_t n) {
 	sim_seam("write", n, allowed);
 	if (allowed < n) {
 		g_sim.counters["fault.F-WRITE"]++;
+		if (g_sim.write_fail_once) g_sim.write_fail_at = -1;   // transient: the medium takes data again from the next call on
 		errno = g_sim.write_errno;
 		return (ssize_t) allowed;   // short count: stdio treats it as an error
 	}
@@ -346,6 +348,9 @@ FILE *__wrap_fdopen(int fd, const char *mode) {
 		auto f = g_sim.fs->faults.find({"fdopen", n});
 		if (f != g_sim.fs->faults.end()) {
 			g_sim.counters["fault.F-SYSCALL"]++;
+			FsLog l; l.op = "fdopen"; l.ino = it->second.ino; l.err = f->second; l.injected = true;
+			if (l.ino >= 0) { l.parent = g_sim.fs->nodes[l.ino].parent; l.path = g_sim.fs->path_of(l.ino); }
+			g_sim.fs->log.push_back(l);
 			errno = f->second;
 			return nullptr;
 		}
@@ -551,9 +556,19 @@ size_t SimSource::limit() const {
 int SimSource::cb_read(void *buf, size_t n) {
 	++reads;
 	sim_seam("src.read", n, pos, true);
-	if (errat >= 0 && pos >= (size_t) errat) {
-		if (!err_fired) { err_fired = true; g_sim.counters["fault.S-ERR"]++; }
+	if (errat >= 0 && pos >= (size_t) errat && !(erronce && err_fired)) {
+		if (!err_fired) { err_fired = true; g_sim.counters[erronce ? "fault.S-ERR-ONCE" : "fault.S-ERR"]++; }
 		return -1;
+	}
+	if (erronce && err_fired) {
+		// the error was transient: the source goes on where it was
+		size_t lim0 = limit();
+		size_t k0 = pos < lim0 ? std::min(n, lim0 - pos) : 0;
+		if (k0) memcpy(buf, data->data() + pos, k0);
+		pos += k0;
+		bytes += k0;
+		if (k0 == 0) ++eof_reads;
+		return (int) k0;
 	}
 	if (endless && data && !data->empty()) {
 		// a source that never ends (a device, a peer that keeps talking): the bytes repeat
@@ -610,7 +625,7 @@ const LHAInputStreamType *SimSource::cb_type(bool with_skip) { return with_skip 
 static ssize_t src_cookie_read(void *c, char *buf, size_t n) {
 	SimSource *s = (SimSource *) c;
 	int r = s->cb_read(buf, n);
-	if (r < 0) { errno = EIO; return -1; }
+	if (r < 0) { errno = s->errerrno; return -1; }
 	return r;
 }
 
